@@ -322,6 +322,9 @@ func (e *exec) Check(r *vmc.Result) string {
 	if r.End == "horizon" {
 		what = "no progress within the horizon (" + time.Duration(r.NowNS).String() + " virtual)"
 	}
+	if e.p.Kind == "initfail" || e.p.Kind == "baddialect" {
+		return fmt.Sprintf("a node whose initialization failed leaves goroutines behind: %s", strings.Join(r.LibThreadsAlive(), ", "))
+	}
 	switch {
 	case !e.closeCalled:
 		return "MACHINERY: the closer was never triggered (" + what + ")"
